@@ -37,7 +37,7 @@ CHECKS = {
                   'of every object in all bounded histories, each fed back as a matcher to the real controller',
         text='number<->letters conversion is compared with the by-construction sequence for every index through four '
              'letters; every displayed label in every explored history/interleaving is used as `X: label` matcher and must '
-             'select exactly the reference set of lines, also after a session in which single connections were watched. One id is reused 9711 times to reach the labels that spell all/inf/nan/new/nil; labels of two connections are combined in one matcher; a line the tool displays under a connection name must be selected by that name.',
+             'select exactly the reference set of lines, also after a session in which single connections were watched. One id is reused 9711 times to reach the labels that spell all/inf/nan/new/nil; labels of two connections are combined in one matcher; a line the tool displays under a connection name must be selected by that name. Histories in which every line carries the first time stamp (destruction at session time 0.0).',
         ref='3/C14', engine='PROD'),
     'C08': dict(
         technique='deviation-bounded exhaustive enumeration (inserted chatter lines at every position, missing final '
@@ -49,7 +49,7 @@ CHECKS = {
                   'decimal mark x view, executed on the real pipeline, oracle in exact integer arithmetic',
         text='All logs of 3/4 messages with gaps from {0,.4,.999999,1,1.000001,1.2,2.5}s (and, with stamped non-message lines first, a string quoting a stamped line, or plain, from {-.003,0,.999999,1.000001,2.5}s), every shown/hidden pattern, '
              '4/10 constant shifts, both decimal marks, live view and list, 1-2 connections: displayed times and the '
-             'presence/value of every gap separator must equal the exact reference. Empty listings between live messages, gaps of -2.5 s and 2200 s.',
+             'presence/value of every gap separator must equal the exact reference. Empty listings between live messages, gaps of -2.5 s and 2200 s. A dense sweep of constant shifts (every microsecond and every millisecond of a range, several absolute bases) with a gap of exactly one second followed by one of a second and a microsecond; a second connection whose first lines arrive between two shown messages.',
         ref='3/C16', engine='PROD'),
     'C05': dict(
         technique='exhaustive product enumeration of matcher expressions built together with their denotation, '
@@ -69,7 +69,7 @@ CHECKS = {
                   'repeated and interleaved, on the real controller against a reference list()',
         text='For histories of 0/1/12/56 messages, 3 current filters, 3 selections, matchers with hand denotations and caps '
              '{absent,0,1,2,k-1,k,k+1,99}: listed lines = reference (last N under a cap), counts add up, and '
-             'filter/breakpoint/selection/recorded list are unchanged. A second part demands that the record seen per connection, with none selected and in the connection listing agree (also for lines the tool cannot take in, empty titles, after re-selecting all); a third that blanks inside quoted strings of a typed matcher are kept.',
+             'filter/breakpoint/selection/recorded list are unchanged. A second part demands that the record seen per connection, with none selected and in the connection listing agree (also for lines the tool cannot take in, empty titles, after re-selecting all); a third that blanks inside quoted strings of a typed matcher are kept. Every ordered pair of queries from 41 look-alikes (quoted / unquoted, blanks, caps, connection prefixes), with nothing, a new message, the same query again, or a selection round trip in between: the answer to the second equals its answer when asked alone.',
         ref='3/C11', engine='PROD'),
     'C12': dict(
         technique='exhaustive enumeration of all filter/breakpoint command sequences to the bound from 3 initial '
@@ -82,7 +82,7 @@ CHECKS = {
         text='After every step of every explored history (log lines of every construct, every command form) the '
              'coloured output with escape sequences removed must equal the uncoloured output on both streams and in log '
              'records, and the uncoloured run emits no escape sequence of its own; every coloured fragment printed is fed '
-             'back coloured and stripped to twin sessions, which must behave identically; the real command line, on a pipe and on a pseudo-terminal, with colour disabled and 10 well- and malformed -f/-b values, prints no escape sequence. The pair has a breakpoint from the start; pasted text also goes through the interactive prompt; chatter with characters some splitters take for line ends.',
+             'back coloured and stripped to twin sessions, which must behave identically; the real command line, on a pipe and on a pseudo-terminal, with colour disabled and 10 well- and malformed -f/-b values, prints no escape sequence. The pair has a breakpoint from the start; pasted text also goes through the interactive prompt; chatter with characters some splitters take for line ends. Coloured fragments are also pasted as the value of -f / -b through parse_args itself; long sessions (filters and breakpoints accumulated over 6/14 commands, one-shot matchers of up to 40/200 alternatives) run in lock step.',
         ref='3/C17', engine='BFS'),
     'C07': dict(
         technique='exhaustive enumeration of every shipped interface x message x argument position (API and output '
@@ -107,7 +107,7 @@ CHECKS = {
         text='Every input within the bounds is run: logs must be consumed with every opened connection closed and nothing '
              'but SystemExit leaving the entry points (20 s alarm); every matcher string is accepted or rejected with a '
              'diagnostic and accepted ones are simplified, printed and evaluated on diverse messages; every command line '
-             'produces output or an error line and leaves the session usable. A slice runs the real CLI under C and C.utf8. Every command line is typed twice; sessions with shared application ids and an overlarge time stamp; a program that closes its standard error and lingers.',
+             'produces output or an error line and leaves the session usable. A slice runs the real CLI under C and C.utf8. Every command line is typed twice; sessions with shared application ids and an overlarge time stamp; a program that closes its standard error and lingers. Every log case runs under a processor-time and a memory budget of its own (a decoder that loops until the address-space limit of the worker and then swallows the MemoryError does not count as coming back).',
         ref='3/C18', engine='PROD'),
     'C09': dict(
         technique='exhaustive product enumeration of libwayland closures laid out in real (ctypes) memory and read by '
@@ -135,7 +135,7 @@ CHECKS = {
     'C13': dict(
         technique='stateless exploration of all schedules (main, helper thread, child when started with Popen) of the real run_program with bounded preemptions '
                   '(settrace baton scheduler, model pipe with per-holder write ends, model time, scripted child that may close its stderr and linger) + deviation-bounded enumeration of short reads + '
-                  'the real command line in three modes under several hash seeds',
+                  'the real command line in three modes under several hash seeds Streams include bytes that are not UTF-8; a libwayland directory in use (--libwayland DIR; also in the schedule model); program arguments that read like option lists with g / r inside.',
         text="Every 2-thread schedule of the real run_program with <=2/<=3 preemptions (a scheduling point at every line of runner.py and every pipe operation): no deadlock or assertion, the file-mode twin's output, the child's status, the prompt after all output; every placement of <=2/<=3 cuts at every byte offset leaves the output unchanged; the real CLI gives identical stdout/stderr in file, pipe and run mode across hash seeds, with writes split inside a character, marker-like program arguments, any parent WAYLAND_DEBUG, and returns the child's exit status (all 256 in the thorough tier). The scripted child may close its standard error and linger (model time); real children: a lingering one, a bare program name (argv[0] read back), a program path with blanks and quotes, empty-string arguments, `--` among the arguments; the three modes are also compared under -f and -b.",
         ref='3/C13', engine='ILV+DEV'),
 }
